@@ -177,6 +177,12 @@ fn check_inner(sub: &str, g: &G, toks: &[char], gap_seed: u64, l: &mut Local) ->
 }
 
 pub fn check_case(case: &Case, l: &mut Local) -> Result<(), Fail> {
+    if case.sub.starts_with("pratt") {
+        // Pratt fold-callback spans: C09's comparison, reported here
+        let mut c = case.clone();
+        c.sub = "exh".into();
+        return super::c09::check_case(&c, l).map_err(|f| Fail::new(f.sig.replace("C09/", "C07/pratt-"), f.msg));
+    }
     let seed = case.extra.get("gap_seed").and_then(|p| p.as_u64()).unwrap_or(1);
     check_inner(&case.sub, &case.g, &case.toks(), seed, l).map_err(|(_, f)| f)
 }
@@ -299,6 +305,13 @@ pub fn run(tier: Tier, seed: u64) -> i32 {
         l.add("strings_per_template", strings.len() as u64);
         l.add("multibyte_strings_per_template", strings_mb.len() as u64);
     });
+    // Pratt prefix / postfix / infix fold callbacks: the span and slice they see must be exactly the
+    // sub-expression being built (tuple, Vec and boxed operator tables); C09's machinery, reported here
+    super::c09::callback_span_tier(&ctx, ctx.pick(60, 600), ctx.pick(5, 6), &|mut c, f| {
+        c.prop = ID.into();
+        c.sub = "pratt".into();
+        (c, Fail::new(f.sig.replace("C09/", "C07/pratt-"), f.msg))
+    });
     let n = ctx.pick(1_200_000, 15_000_000);
     ctx.par_random(n, 200, 7, |tape, l| {
         let (g, input, sub, seed) = decode(tape);
@@ -306,7 +319,7 @@ pub fn run(tier: Tier, seed: u64) -> i32 {
         check_inner(sub, &g, &input, seed, l)
     });
     ctx.finish(&check_case, RULE, ASSUMPTIONS, &|l| {
-        for k in ["empty_match_between_two_tokens", "empty_match_between_two_gapped_tokens", "capture_after_backtrack_over_consumed_input", "multi_byte_text", "kind:str", "kind:slice", "kind:stream", "kind:spslice", "kind:spstream", "kind:spiter"] {
+        for k in ["empty_match_between_two_tokens", "empty_match_between_two_gapped_tokens", "capture_after_backtrack_over_consumed_input", "multi_byte_text", "kind:str", "kind:slice", "kind:stream", "kind:spslice", "kind:spstream", "kind:spiter", "pratt_fold_callback_cases"] {
             if l.counters.get(k).copied().unwrap_or(0) == 0 {
                 return Err(format!("class '{}' is empty", k));
             }
